@@ -100,6 +100,10 @@ func c12Run(e *vh.Env, c c12Case, o *vh.Out) {
 	if c.Feat.Breaker {
 		cfg.CircuitBreaker.TimeoutSeconds = 1
 		cfg.CircuitBreaker.IntervalSeconds = 1
+		if c.Round%2 == 1 {
+			// several trial slots: requests compete for the last one while the breaker is half-open
+			cfg.CircuitBreaker.SuccessThreshold, cfg.CircuitBreaker.MaxRequests = 2, 3
+		}
 	}
 	if c.Feat.Passive {
 		cfg.HealthChecks.Passive.UnhealthyTimeout = 1
@@ -428,7 +432,7 @@ func init() {
 		func(e *vh.Env) []c12Sched {
 			var cs []c12Sched
 			for _, st := range allStrategies {
-				for _, k := range []string{"traffic-vs-strategy", "traffic-vs-remove", "traffic-vs-eject", "expiry-vs-expiry", "breaker-trip-vs-metrics"} {
+				for _, k := range []string{"traffic-vs-strategy", "traffic-vs-remove", "traffic-vs-eject", "expiry-vs-expiry", "breaker-trip-vs-metrics", "half-open-last-slot"} {
 					cs = append(cs, c12Sched{st, k})
 				}
 			}
@@ -440,12 +444,15 @@ func init() {
 			defer closeBackends(bes)
 			world := func(s *vh.Sched) func(*vh.Sched, vh.SchedResult) {
 				f := featureCfg{Passive: true}
-				if c.Kind == "breaker-trip-vs-metrics" {
+				if c.Kind == "breaker-trip-vs-metrics" || c.Kind == "half-open-last-slot" {
 					f.Breaker = true
 				}
 				cfg := faultConfig(c.Strategy, bes, f)
 				if f.Breaker {
 					cfg.CircuitBreaker.FailureThreshold = 1
+				}
+				if c.Kind == "half-open-last-slot" {
+					cfg.CircuitBreaker.SuccessThreshold, cfg.CircuitBreaker.MaxRequests = 2, 2
 				}
 				sys, err := startSys(cfg, bes, false)
 				if err != nil {
@@ -500,6 +507,15 @@ func init() {
 					s.Go(guard(func() { sys.LB.IsBackendHealthy(live[0]) }))
 					s.Go(guard(func() { sys.LB.IsBackendHealthy(live[0]) }))
 					s.Go(req(0, 200))
+				case "half-open-last-slot":
+					// the breaker is open and its timeout has elapsed: the first request makes it half-open and takes
+					// one of the two trial slots, the others compete for the last one
+					sys.call("GET", "/x", "10.12.1.9:1", [][2]string{{vh.ScriptHeader, vh.Script{Status: 500}.Encode()}}, nil)
+					time.Sleep(time.Duration(cfg.CircuitBreaker.TimeoutSeconds+1) * time.Second)
+					s.Only["cb.before.half"] = true
+					s.Go(req(0, 200))
+					s.Go(req(1, 200))
+					s.Go(req(2, 200))
 				case "breaker-trip-vs-metrics":
 					s.Go(req(0, 500))
 					s.Go(req(1, 500))
@@ -583,6 +599,11 @@ func init() {
 			stopped := make(chan struct{})
 			var once sync.Once
 			var lbp atomic.Pointer[loadbalancer.LoadBalancer]
+			var stopStarted atomic.Bool
+			if c12Wedged {
+				o.Inconcl("case %s skipped: an earlier case left deadlocked goroutines in this process", vh.J(c))
+				return
+			}
 			vhook.Set(func(pt string) {
 				if pt != "lb.probe.add" {
 					return
@@ -592,6 +613,7 @@ func init() {
 				if n == int64(3+c.At) {
 					once.Do(func() {
 						go func() {
+							stopStarted.Store(true)
 							if lb := lbp.Load(); lb != nil {
 								lb.Stop()
 							}
@@ -612,7 +634,20 @@ func init() {
 			case <-stopped:
 				o.Obs("stops_during_fanout", 1)
 			case <-time.After(20 * time.Second):
-				o.Inconcl("the probe loop did not reach its second tick within 20 s (case %s)", vh.J(c))
+				if !stopStarted.Load() {
+					o.Inconcl("the probe loop did not reach its second tick within 20 s (case %s)", vh.J(c))
+					break
+				}
+				// Stop was called and has not come back: examine the goroutines the same way as for a stalled operation
+				stuck, all := c12Stalled()
+				c12Wedged = true
+				if stuck != "" {
+					os.WriteFile(fmt.Sprintf("%s/stall-stop-%d.txt", e.TmpDir, c.Round), []byte(all), 0o644)
+					o.Viol("C12|deadlock|"+c12StallFrame(stuck), fmt.Sprintf("%s: Stop, called while the second probe round was being fanned out, had not returned after 20 s and goroutines inside Helios stay parked on a lock or wait group with an unchanged stack over 8 s", vh.J(c)), map[string]any{"stuck_goroutines": trunc(stuck, 6000)})
+				} else {
+					o.Inconcl("Stop had not returned after 20 s but no goroutine inside Helios is parked on a lock (case %s)", vh.J(c))
+				}
+				return // closing the system would call Stop again and wait with it
 			}
 			time.Sleep(300 * time.Millisecond)
 			sys.Close()
